@@ -104,6 +104,16 @@ func (c *Cache) Commit() (err error) {
 			if err = fshelper.StreamCopy(c.bufferFS, c.remoteFS, src); err != nil {
 				return err
 			}
+		} else if c.bufferFS.IsDir(src) {
+			// a copied directory: send the whole buffered tree
+			if err = (fshelper.Copier{
+				SrcFS:    c.bufferFS,
+				SrcPath:  src,
+				DestFS:   c.remoteFS,
+				DestPath: src,
+			}).Do(); err != nil {
+				return err
+			}
 		}
 	}
 	return nil
